@@ -9,7 +9,7 @@ CHECKS = {
              "approxPhase = to o from, encode/decode identity on the as-implemented transcription; the real 32-bit functions are then driven "
              "over the same grid (embedded by x -> x*2^(32-W), where the W-bit routine is the 32-bit routine for power-of-two M) and over "
              "full-width neighbourhoods of every kind of rounding edge for M in the property's list and random M <= 2^15; every observed row "
-             "is decided by TLC against the specification (equality with the model on the grid, nearest-rounding in exact limb arithmetic at full width). A third family interleaves the calls that make up a row with calls for other message-space sizes (state kept between calls).",
+             "is decided by TLC against the specification (equality with the model on the grid, nearest-rounding in exact limb arithmetic at full width). A third family interleaves the calls that make up a row with calls for other message-space sizes (state kept between calls). dtot32 is checked for periodicity at magnitudes 2^20 to 2^51 (arguments chosen so that the sum is exact in a double).",
         note="Trusted: TLC, the harness printing what the functions return. M = 2^31 is not representable in int32_t Msize (covered up to 2^30). "
              "Full 2^32 enumeration of phases is not done at full width; the embedding argument plus edge families stand in for it.",
         design="§6 C13"),
@@ -31,7 +31,7 @@ CHECKS = {
         text="TLC proves on the specification that the code-shaped operators (two-loop schoolbook, Karatsuba recursion with cut-off and hand-zeroed middle slot, reduction, two-case monomial loops) "
              "equal the ring definitions for all basis pairs, all exponents a in [0,2N) and extreme dense vectors at N <= 32/64, incl. X^a X^b = X^(a+b), X^N = -1. The real degree-generic routines are run at "
              "every N in {1,...,2048}: all basis pairs (small N), boundary pairs and few-term extreme polynomials (large N), dense products (N <= 32/64), every a in [0,2N) for the three monomial routines, "
-             "and the coefficient-wise operations with p incl. INT32_MIN; TLC recomputes each result from the definition with 16-bit-limb arithmetic and compares exactly.",
+             "and the coefficient-wise operations with p incl. INT32_MIN; TLC recomputes each result from the definition with 16-bit-limb arithmetic and compares exactly. The Karatsuba entry points are also called with the result being the torus operand, and the outputs of from-scratch routines are pre-filled with garbage.",
         note="Trusted: TLC, Word32 limb arithmetic (itself exercised by all rows). Dense 1024-term products are not recomputed by TLC (cost); large N is covered through bilinearity-style sparse inputs.",
         design="§6 C11"),
     "C14": dict(
@@ -42,7 +42,7 @@ CHECKS = {
              "of the optimised build touches exactly words 0..n-1 for every n (the pinned do-while variant is rejected: that is defect D2, repaired). The real routines (optim AVX2 and debug builds) are run "
              "on random and extreme samples for every listed dimension with masks placed in red-zoned buffers; TLC recomputes every output coefficient, the library's own lwePhase values, the variance "
              "annotation and requires zero damaged guard words. TLWE operations (N in 2..1024, k in 1..3, incl. X^a-1) and tLweExtractLweSampleIndex for every j (dense with true TLWE phase for small N incl. "
-             "non powers of two, boundary-crossing sparse samples for large N) are validated the same way.",
+             "non powers of two, boundary-crossing sparse samples for large N) are validated the same way. Negate and copy are also called with the result being the operand itself, and the TLWE monomial product is run first at exponents exactly 0, N, 2N-1, 1, N-1, N+1 into a result that held other data.",
         note="Trusted: TLC and the Word32 limb arithmetic; red zones are 32 words each side (an overflow farther away is not seen). Coefficient equality is checked, which is stronger than phase equality.",
         design="§6 C14"),
     "C08": dict(
@@ -52,7 +52,7 @@ CHECKS = {
         text="For each layout of a grid TLC enumerates every mask value of the W-bit torus (W = t*basebit+1/+2), all keys, n_in up to 3, and checks that the extracted digits recompose to the nearest multiple "
              "(ties either way, carries across digits, wrap at the top) and that the output phase equals b - sum s_i Round(a_i) exactly, hence differs from the input phase by at most 2^-(t*basebit+1) per set key bit. "
              "The real routine is run with key-switching keys produced by lweCreateKeySwitchKey at noise 0 for 15 layouts (incl. basebit 1, t*basebit = 31) and dimensions incl. 1, 3, 9, 13: inputs on half-points, grid points, "
-             "all-ones digits, just below 1/2 and just below 1; TLC checks the exact relation, the stated bound, every generated key row (digit-0 rows trivial), lwePhase consistency and intact red zones.",
+             "all-ones digits, just below 1/2 and just below 1; TLC checks the exact relation, the stated bound, every generated key row (digit-0 rows trivial), lwePhase consistency and intact red zones. One sample in eight is a noiseless trivial sample and one has every coefficient below the rounding precision (no row selected), switched into a result object that held a mask.",
         note="Noise statistics of noisy keys are not part of this check (see C02/C07). Full 2^32 enumeration at 32 bits is replaced by the exhaustive W-bit model + boundary families.",
         design="§6 C08"),
     "C03": dict(
@@ -136,7 +136,7 @@ CHECKS = {
         text="For each of 13 small-parameter object types every proper prefix of the export (all byte offsets), for key sets at N = 1024 all offsets of the text parts, section boundaries, tags and a stride through the payload, "
              "on both transports; every export fed to every other type's importer; every byte of every tag and of every BEGIN/END line flipped. The import runs in a forked child and reports: terminated by signal / non-zero exit / "
              "returned with failed stream / returned clean (plus whether the object equals the original). TLC accepts 'clean' only for the intact stream (control: must be clean and equal), for a stream that begins with a complete well-typed "
-             "export of the requested type (decided from Serial!Export), and for the one named deviation of the code (AcceptMissingFinalNewline: stream transport, trailing text section, only the final newline missing, complete object).",
+             "export of the requested type (decided from Serial!Export), and for the one named deviation of the code (AcceptMissingFinalNewline: stream transport, trailing text section, only the final newline missing, complete object). A degenerate shape without mask polynomials (k = 0, key sections are a bare tag) is part of the small-parameter grid.",
         note="Exhaustive over offsets for small-parameter objects, strided for large ones. Memory safety of the importer while failing is not decided here.",
         design="§6 C18"),
     "C06": dict(
@@ -148,7 +148,7 @@ CHECKS = {
              "'one shared processor', 'twiddle tables published once and freed by the processor that built them' (TablesAlive) and 'evaluation temporaries shared by all callers' (Deterministic) are rejected. On the real library 1..64 threads (oversubscribed, random yields, created and destroyed in rounds, four different histories per thread, one thread generating keys meanwhile; in every other run the library's first user is a helper thread that generates the key, computes the sequential reference and exits before any worker starts) evaluate gates and a "
              "1/4-message bootstrapping with one shared cloud key; hooks (guard TFHE_VERIF) report processor construction/destruction, which processor and scratch buffer each thread ran its transforms on, and the planner critical sections, ordered by a global atomic counter. "
              "TLC requires that every thread used only the processor it constructed itself (identity, not timing), that every planner call was made by the holder of the mutex, that joined threads' processors were destroyed, and that every output equals the memoised output "
-             "of the same (operation, key, inputs) on any other thread, after any history, and in the sequential reference run. The evaluation mix includes the coefficient-domain bootstrapping (tGswExternMulToTLwe / tfhe_blindRotate), with its sequential reference.",
+             "of the same (operation, key, inputs) on any other thread, after any history, and in the sequential reference run. The evaluation mix includes the coefficient-domain bootstrapping (tGswExternMulToTLwe / tfhe_blindRotate), with its sequential reference. Workers also multiply in Lagrange workspaces that another thread allocated (the transforms must still run on the calling thread's processor: judged by identity through the hooks), and two inputs are re-randomised so that NAND's combination has body exactly 0.",
         note="Exhaustive for the model; sampled schedules for the code (quick: spqlios-fma, nayuki-portable, fftw; thorough: five back-ends + debug builds). Data races that change neither identities nor results are not observable this way.",
         design="§6 C06"),
     "C04": dict(
@@ -168,7 +168,7 @@ CHECKS = {
         text="TLC checks on the reduced instances that phase(ExtProd(TGSW(m), c)) = m * phase(c) exactly for m in {0, 1, -1, X^j (every j), a small-norm polynomial}, every value and position of a chosen body coefficient and three mask sets, for k = 1 and 2, and that blind rotation "
              "multiplies the accumulator phase by X^(sum bara_i s_i) for exponent vectors incl. 0, 1, N'-1, N', N'+1, 2N'-1 entries. The TGSW samples, TLWE samples and bootstrapping key of the instance are embedded into the real structures; tGswExternMulToTLwe, tGswFFTExternMulToTLwe, tGswExternProduct, "
              "tfhe_blindRotate, tfhe_blindRotate_FFT (whole and one key element at a time) run on them; TLC recomputes the model per row and requires every coefficient of the observed phase on the embedded sub-ring to match within 256 units of 2^-32 and nothing to leak outside the sub-ring. "
-             "Since FFT images are produced by the real tGswToFFTConvert from the coefficient-domain samples, agreement of both variants with the same model shows the FFT key is a faithful image. At full size, noiseless TGSW encryptions of +-X^j with uniform masks are multiplied (FFT in place, coefficient domain in place, coefficient domain into a separate result) with TLWE samples with random and extreme coefficients under seven (thorough: twelve) layouts incl. Bgbit = 16, l*Bgbit = 32, k = 2; TLC checks phase(product) = +-X^j phase(sample) at sampled positions within the analytic bound (decomposition + TGSW row noise + FFT). The reduced instance with three key elements is replayed one key element at a time, and one instance is replayed by four threads at once.",
+             "Since FFT images are produced by the real tGswToFFTConvert from the coefficient-domain samples, agreement of both variants with the same model shows the FFT key is a faithful image. At full size, noiseless TGSW encryptions of +-X^j with uniform masks are multiplied (FFT in place, coefficient domain in place, coefficient domain into a separate result) with TLWE samples with random and extreme coefficients under seven (thorough: twelve) layouts incl. Bgbit = 16, l*Bgbit = 32, k = 2; TLC checks phase(product) = +-X^j phase(sample) at sampled positions within the analytic bound (decomposition + TGSW row noise + FFT). The reduced instance with three key elements is replayed one key element at a time, and one instance is replayed by four threads at once. The coefficient-domain external product into a separate result is repeated sixteen times on one const operand before its phase is taken (the operand must not drift).",
         note="The noisy-row clause (statistical bound) is observed through the gate-output statistics of C02, not here. Exactness relies on LL*BGB = W in the replay instances (no truncation).",
         design="§6 C09"),
     "C10": dict(
@@ -178,7 +178,7 @@ CHECKS = {
         text="TLC generates random programs over the ten Lagrange-domain operations (both inverse transforms, forward transform, clear, add, multiply, multiply-add, multiply-subtract, set/add torus constant) from the specification; each program runs on all five back-ends "
              "through the embeddings and TLC replays it on the model, requiring every forward transform to return the register's exact content mod 2^32 within the register's budget (1 unit per round trip, 2 per product) and nothing outside the embedded sub-ring. "
              "For the dense families the property names (B in {1,2^6,2^9,2^15,2^20} x integer families x torus families incl. all INT32_MAX and alternating INT32_MIN/MAX) the FFT product, multiply-accumulate, multiply-subtract, the inverse/forward round trip and two Lagrange-domain "
-             "compositions are compared with the library's exact Karatsuba routine (bound to the ring definition by C11); TLC accepts a row iff every deviation is within FftTol(B) = 2 (1 for the round trip), growing as 2B/2^9 above 2^9. Each dense case runs in its own child so that an assertion of a debug build is itself an observation.",
+             "compositions are compared with the library's exact Karatsuba routine (bound to the ring definition by C11); TLC accepts a row iff every deviation is within FftTol(B) = 2 (1 for the round trip), growing as 2B/2^9 above 2^9. Each dense case runs in its own child so that an assertion of a debug build is itself an observation. Generated programs may use the destination register as one of the operands of Mul / AddMul / SubMul.",
         note="Exploration level: inputs are sampled families, and why a kernel achieves 2 units is numerical analysis outside TLA+. Found and repaired: D7 (spqlios-avx SubMul register typo). Recorded finding D6: debug builds of the nayuki back-ends abort in check_alternate_real on large-magnitude inputs (see known-findings.txt).",
         design="§6 C10"),
     "C07": dict(
@@ -189,7 +189,7 @@ CHECKS = {
              "and hashes of arguments and output. TLC requires the output and next token to be a function of (call, token, arguments), the token to advance, outputs from different tokens to differ, and re-seeding to be a function of the seed -- so a second randomness source, "
              "state surviving a re-seed, or a reused mask are rejected. Distribution: phase errors (computed with the secret keys) of fresh LWE/TLWE/TGSW samples for alpha in {2^-30,...,2^-5, 0}, of every non-zero-digit row of the generated key-switching key and of sampled bootstrapping-key rows "
              "(x1024 coefficients) for both default sets generated in one process are streamed in units of alpha/64; TLC accumulates n, sum, sum of squares, max per stream and accepts iff sd = 64 within 8 estimator sigma plus the 2^-32 discretisation (both sides), |mean| <= 8 sigma/sqrt(n), "
-             "max < 10 sigma, the mask top-bits histogram is uniform within 8 binomial sigma, alpha = 0 gives exactly zero error, key bits are balanced, and digit-0 key-switching rows are exactly trivial. Every mask is also compared coordinate by coordinate with the previous one (a repeated coordinate has probability 2^-32), for LWE dimensions 1, 7, 64, 501, 631, for lweSymEncryptWithExternalNoise, and for a key-switching key with odd output dimension from the public generator.",
+             "max < 10 sigma, the mask top-bits histogram is uniform within 8 binomial sigma, alpha = 0 gives exactly zero error, key bits are balanced, and digit-0 key-switching rows are exactly trivial. Every mask is also compared coordinate by coordinate with the previous one (a repeated coordinate has probability 2^-32), for LWE dimensions 1, 7, 64, 501, 631, for lweSymEncryptWithExternalNoise, and for a key-switching key with odd output dimension from the public generator. Each stream also reports how many errors are exactly 0 (a clipped or skipped noise term shows as a pile of zeros), and the external-noise entry point is driven with messages at and next to 1/2 and caller-supplied noise of either sign.",
         note="Statistical acceptance, not proof (false-alarm probability < 1e-14 per statistic; a 15 % change of a key row noise level is detected at the quick sample sizes). Distribution shape beyond two moments, maximum and a coarse histogram is not decided.",
         design="§6 C07"),
     "C16": dict(
@@ -205,7 +205,7 @@ CHECKS = {
              "TLC requires zero damaged red-zone bytes, no double free, no crash, plaintext-correct results, identical result/export hashes under both fill patterns, and nothing alive once the thread that ran a whole lifecycle (after a first run in the same process) has exited; "
              "configuration sequences on one thread and gates on noiseless constants are part of the scenarios. 'Every order the API allows' is the TLA+ machine Life (6 objects, 3 blobs, the collector; guards = what must be alive): TLC checks NoDangling/DeadIsEmpty/NoStuck for all behaviours up to 9 (thorough: 11) calls and for both "
              "parameter kinds, samples ~20 (thorough: ~250) long behaviours, and every one is replayed by h_life; Trace_Life accepts a replay only if each step is an enabled Life action, each decryption returns Life's plaintext, gate outputs are one function of (key, gate, inputs) across generated and re-imported key objects and across runs, "
-             "key exports are byte-identical, and the windows are clean.",
+             "key exports are byte-identical, and the windows are clean. A third pass runs the small configurations, the sequences and a polynomial-routine scenario (monomial products at exponents 0, 1, N-1, N, N+1, 2N-1, Karatsuba, naive and FFT products) with every 1-64 KiB block ending on an inaccessible page.",
         note="PARTIAL: decides heap out-of-bounds writes within 64 bytes of a block, leaks, double frees, uses of uninitialised/freed heap memory that change a result or an export, and - in a third pass where every block of 1 to 64 KiB ends on an inaccessible page - any access (reads included) past the end of a coefficient or sample array. NOT decided: out-of-bounds reads before a block or past the end of smaller blocks, stack accesses, accesses far outside a block, "
              "anything inside hand-written assembly that stays in mapped memory. The ASan/UBSan/Valgrind configurations named by the property are a different technique and are not run. Found and repaired through this family of checks: D2, D3, D4.",
         design="§6 C16, §7"),
